@@ -19,6 +19,7 @@ deriving Repr, Inhabited
 structure PolyTerm where
   coef : Rat
   exp : Int
+  isInt : Bool := false       -- the coefficient is a Python int (only its `str()` differs: "1" versus "1.0")
 deriving DecidableEq, Repr, Inhabited
 
 inductive Calibrator
